@@ -248,7 +248,8 @@ def run(run):
     tasks = [{'src': k, 'prefix': [], 'depth': 0, 'sizes': ns} for k in SOURCES]
     for k in SOURCES:
         if depth == 2:
-            tasks += [{'src': k, 'prefix': [s], 'depth': 2, 'sizes': ns} for s in SIGMA]
+            d_k = 2 if k in ('gen1', 'tuple1') else 1      # quick: pairs on the two basic sources, singles on the others
+            tasks += [{'src': k, 'prefix': [s], 'depth': d_k, 'sizes': ns} for s in SIGMA]
         else:
             # sequences of length <=2 on every size (incl. 10^4); length 3 on the two ends of the small sizes
             tasks += [{'src': k, 'prefix': [s], 'depth': 2, 'sizes': ns} for s in SIGMA]
